@@ -10,7 +10,7 @@ use crate::rlnh::new_rln;
 use num_bigint::BigUint;
 use proptest::prelude::*;
 use serde::{Deserialize, Serialize};
-use std::io::Cursor;
+
 use std::sync::OnceLock;
 
 pub struct C02;
@@ -411,53 +411,23 @@ impl Property for C02 {
             }
         }
         *stats.labels.entry("fixed/proof-bit-sweep".into()).or_default() += bits as u64;
-        // (b) verifier-side tree changes after proving, then restored (own instance)
-        let small = match build_pool(ctx.seed ^ 0xc02b, 2, "pool-c02-tree") {
-            Ok(p) => p,
-            Err(e) => return Some((format!("cannot build the tree-mutation pool: {e}"), None)),
-        };
-        let mut small = small;
-        let g = small.msgs[0].clone();
-        let vi = verify_input(&g.msg, &g.signal);
-        let root0 = small.root.clone();
-        let prover_leaf = g.req.rate_commitment();
-        let steps: Vec<(&str, usize, Option<BigUint>)> = vec![
-            ("set another leaf", (g.req.index + 5) % CAP, Some(BigUint::from(99u32))),
-            ("set the sibling", g.req.index ^ 1, Some(BigUint::from(7u32))),
-            ("overwrite the prover's leaf", g.req.index, Some(BigUint::from(5u32))),
-            ("delete the prover's leaf", g.req.index, None),
+        // (b) verifier-side tree changes after proving, then restored: four canned sequences on every
+        // pool message (the generated VerifierTree cases explore longer ones)
+        let canned: Vec<Vec<TOp>> = vec![
+            vec![TOp::SetOther(2, 5), TOp::RestoreAll],
+            vec![TOp::SetOther(0, 4), TOp::DeleteOther(0), TOp::RestoreAll],
+            vec![TOp::OverwriteProver(1), TOp::RestoreProver],
+            vec![TOp::DeleteProver, TOp::RestoreProver, TOp::SetOther(1, 3), TOp::RestoreAll],
         ];
-        for (what, pos, val) in steps {
-            // mutate
-            let before_leaf = {
-                let mut out = vec![];
-                small.rln.get_leaf(pos, &mut out).ok()?;
-                BigUint::from_bytes_le(&out)
-            };
-            match &val {
-                Some(v) => set_leaf_big(&mut small.rln, pos, v).ok()?,
-                None => small.rln.delete_leaf(pos).ok()?,
-            }
-            let root_now = get_root_big(&small.rln);
-            let v = call_verify_rln(&small.rln, &vi);
-            stats.evaluations += 2;
-            if root_now != root0 && v.is_true() {
-                return Some((format!("verify_rln_proof accepted a message for root {root0} after the verifier's tree changed ({what}) to root {root_now}"), None));
-            }
-            // the root set still containing the old root keeps accepting
-            if !call_verify_roots(&small.rln, &vi, &cr::enc_fr(&root0)).is_true() {
-                return Some((format!("verify_with_roots [old root] rejected the message after the verifier's tree changed ({what})"), None));
-            }
-            // restore
-            set_leaf_big(&mut small.rln, pos, &before_leaf).ok()?;
-            if pos == g.req.index {
-                set_leaf_big(&mut small.rln, pos, &prover_leaf).ok()?;
-            }
-            if get_root_big(&small.rln) != root0 {
-                return Some((format!("restoring the tree after '{what}' did not restore the root (see C06)"), None));
-            }
-            if !call_verify_rln(&small.rln, &vi).is_true() {
-                return Some((format!("verify_rln_proof rejects the message after the tree was restored ('{what}')"), None));
+        for golden in 0..pool.msgs.len().min(4) as u8 {
+            for ops in &canned {
+                let c = Case { golden, target: Target::VerifyRln, mutation: Mutation::VerifierTree(ops.clone()) };
+                let mut o = Outcome::new();
+                run(pool, &c, &mut o);
+                stats.evaluations += o.evals;
+                if let Some(m) = o.fail {
+                    return Some((m, Some(c)));
+                }
             }
         }
         *stats.labels.entry("fixed/verifier-tree-changed-and-restored".into()).or_default() += 4;
